@@ -43,6 +43,7 @@ type op struct {
 	mk      int      // message kind for opQueueMsg
 	token   [32]byte // unique payload token
 	invTyp  uint32
+	invN    int // > 1: that many distinct inventory vectors queued in one go
 	nilDone bool
 	done    chan struct{}
 	gateCh  chan struct{} // burst gate (nil outside bursts)
@@ -158,6 +159,13 @@ func (s *sim) startCallers(n int) {
 				case opQueueInv:
 					h := chainhash.Hash(o.token)
 					s.p.QueueInventory(wire.NewInvVect(wire.InvType(o.invTyp), &h))
+					for i := 1; i < o.invN; i++ {
+						// (more than the trickle path sends in one message,
+						// within one trickle tick)
+						hi := h
+						hi[0], hi[1], hi[2] = byte(i), byte(i>>8), 0xB7
+						s.p.QueueInventory(wire.NewInvVect(wire.InvType(o.invTyp), &hi))
+					}
 				case opDisconnect:
 					s.p.Disconnect()
 				}
